@@ -106,7 +106,15 @@ func main() {
 	}
 
 	plain := methodsOf
-	lenGuard := requiredGasLenGuard(plain[".requiredGas"])
+	intC := map[string]int64{}
+	for _, fl := range files {
+		for _, d := range fl.F.Decls {
+			if gd, ok := d.(*ast.GenDecl); ok {
+				collectIntConsts(gd, intC)
+			}
+		}
+	}
+	lenGuard := requiredGasLenGuard(plain[".requiredGas"], intC)
 	denomGuard, amountGuard := bankMsgSendGuards(handlerOf["precompileFunToken.bankMsgSend"])
 	localMeter := false
 	if fd := plain[".OnRunStart"]; fd != nil && fd.Body != nil {
@@ -123,12 +131,7 @@ func main() {
 		localMeter = isParam && strings.Contains(b, "cacheCtx.WithGasMeter(sdk.NewGasMeter(gasLimit))") &&
 			!strings.Contains(b, "gasLimit=") && !strings.Contains(b, "gasLimit:=") && !strings.Contains(b, "gasLimit+=")
 	}
-	oogOnly := false
-	if fd := plain[".HandleOutOfGasPanic"]; fd != nil && fd.Body != nil {
-		b := Nospace(fd.Body)
-		oogOnly = strings.Contains(b, "casesdk.ErrorOutOfGas:*err=vm.ErrOutOfGas") && strings.Contains(b, "default:panic(r)") &&
-			strings.Count(b, "case") == 1
-	}
+	oogOnly := oogOnlySemantic(plain[".HandleOutOfGasPanic"])
 	g := gethFacts(repo)
 
 	evmDenomGuard := sendToEvmDenomGuard(handlerOf["precompileFunToken.sendToEvm"])
@@ -534,23 +537,329 @@ func analyseHandler(fd *ast.FuncDecl, h handlerRef, readonlyParam string) (guard
 
 // ---------------------------------------------------------------- panic guards
 
-func requiredGasLenGuard(fd *ast.FuncDecl) bool {
+// requiredGasLenGuard: before the first slice expression on `input`, an if that returns when
+// len(input) is below the largest constant index used for slicing (semantic: named integer
+// constants are folded, `len(input) < n`, `n > len(input)`, `len(input) <= n-1` are the same guard).
+func requiredGasLenGuard(fd *ast.FuncDecl, consts map[string]int64) bool {
 	if fd == nil || fd.Body == nil {
 		return false
 	}
-	guardPos, slicePos := token.NoPos, token.NoPos
-	for _, s := range fd.Body.List {
-		if is, ok := s.(*ast.IfStmt); ok && guardPos == token.NoPos && Nospace(is.Cond) == "len(input)<4" && returnsInside(is.Body) {
-			guardPos = is.Pos()
-		}
+	local := map[string]int64{}
+	for k, v := range consts {
+		local[k] = v
 	}
+	collectIntConsts(fd.Body, local)
+	slicePos := token.NoPos
+	var maxIdx int64 = 0
 	ast.Inspect(fd.Body, func(n ast.Node) bool {
-		if se, ok := n.(*ast.SliceExpr); ok && Src(se.X) == "input" && slicePos == token.NoPos {
-			slicePos = se.Pos()
+		if se, ok := n.(*ast.SliceExpr); ok && Src(se.X) == "input" {
+			if slicePos == token.NoPos {
+				slicePos = se.Pos()
+			}
+			for _, e := range []ast.Expr{se.Low, se.High} {
+				if e == nil {
+					continue
+				}
+				if v, ok := evalInt(e, local); ok {
+					if v > maxIdx {
+						maxIdx = v
+					}
+				} else {
+					maxIdx = 1 << 62 // an index we cannot evaluate: no constant guard covers it
+				}
+			}
 		}
 		return true
 	})
-	return guardPos != token.NoPos && (slicePos == token.NoPos || guardPos < slicePos)
+	if slicePos == token.NoPos {
+		return true // nothing to guard
+	}
+	for _, s := range fd.Body.List {
+		is, ok := s.(*ast.IfStmt)
+		if !ok || is.Pos() > slicePos || is.Init != nil || !returnsInside(is.Body) {
+			continue
+		}
+		if n, ok := lenInputBelow(is.Cond, local); ok && n >= maxIdx {
+			return true
+		}
+	}
+	return false
+}
+
+// lenInputBelow recognises conditions equivalent to  len(input) < n  and returns n.
+func lenInputBelow(e ast.Expr, consts map[string]int64) (int64, bool) {
+	if p, ok := e.(*ast.ParenExpr); ok {
+		return lenInputBelow(p.X, consts)
+	}
+	be, ok := e.(*ast.BinaryExpr)
+	if !ok {
+		return 0, false
+	}
+	isLen := func(x ast.Expr) bool { return Nospace(x) == "len(input)" }
+	switch {
+	case isLen(be.X):
+		if v, ok := evalInt(be.Y, consts); ok {
+			switch be.Op {
+			case token.LSS:
+				return v, true
+			case token.LEQ:
+				return v + 1, true
+			}
+		}
+	case isLen(be.Y):
+		if v, ok := evalInt(be.X, consts); ok {
+			switch be.Op {
+			case token.GTR:
+				return v, true
+			case token.GEQ:
+				return v + 1, true
+			}
+		}
+	}
+	return 0, false
+}
+
+func evalInt(e ast.Expr, consts map[string]int64) (int64, bool) {
+	switch x := e.(type) {
+	case *ast.BasicLit:
+		if x.Kind == token.INT {
+			v, err := strconv.ParseInt(x.Value, 0, 64)
+			return v, err == nil
+		}
+	case *ast.Ident:
+		v, ok := consts[x.Name]
+		return v, ok
+	case *ast.ParenExpr:
+		return evalInt(x.X, consts)
+	case *ast.CallExpr: // conversions int(x), uint64(x) …
+		if id, ok := x.Fun.(*ast.Ident); ok && len(x.Args) == 1 && (strings.HasPrefix(id.Name, "int") || strings.HasPrefix(id.Name, "uint")) {
+			return evalInt(x.Args[0], consts)
+		}
+	case *ast.BinaryExpr:
+		a, ok1 := evalInt(x.X, consts)
+		b, ok2 := evalInt(x.Y, consts)
+		if ok1 && ok2 {
+			switch x.Op {
+			case token.ADD:
+				return a + b, true
+			case token.SUB:
+				return a - b, true
+			case token.MUL:
+				return a * b, true
+			}
+		}
+	}
+	return 0, false
+}
+
+// collectIntConsts adds `const name [type] = <int expr>` declarations found under n.
+func collectIntConsts(n ast.Node, into map[string]int64) {
+	ast.Inspect(n, func(x ast.Node) bool {
+		gd, ok := x.(*ast.GenDecl)
+		if !ok || gd.Tok != token.CONST {
+			return true
+		}
+		for _, sp := range gd.Specs {
+			vs := sp.(*ast.ValueSpec)
+			for i, nm := range vs.Names {
+				if i < len(vs.Values) {
+					if v, ok := evalInt(vs.Values[i], into); ok {
+						into[nm.Name] = v
+					}
+				}
+			}
+		}
+		return true
+	})
+}
+
+// ---------------------------------------------------------------- HandleOutOfGasPanic, semantically
+
+// oogOnly interprets the deferred closure of HandleOutOfGasPanic for the three possible recovered
+// values (nothing, an sdk.ErrorOutOfGas, anything else) and answers: nothing => no effect;
+// out of gas => *err = vm.ErrOutOfGas and no re-panic; anything else => re-panic, *err untouched.
+// Statement shapes it does not understand make the answer false.
+type oogState struct {
+	rVar    string
+	isOOG   map[string]bool // boolean variables holding "r is an sdk.ErrorOutOfGas"
+	scen    int             // 0 nothing recovered, 1 out of gas, 2 other value
+	setErr  bool
+	panics  bool
+	done    bool
+	unknown bool
+}
+
+func (st *oogState) cond(e ast.Expr) (val bool, ok bool) {
+	switch x := e.(type) {
+	case *ast.ParenExpr:
+		return st.cond(x.X)
+	case *ast.UnaryExpr:
+		if x.Op == token.NOT {
+			v, ok := st.cond(x.X)
+			return !v, ok
+		}
+	case *ast.Ident:
+		if st.isOOG[x.Name] {
+			return st.scen == 1, true
+		}
+	case *ast.BinaryExpr:
+		switch x.Op {
+		case token.LAND, token.LOR:
+			a, ok1 := st.cond(x.X)
+			b, ok2 := st.cond(x.Y)
+			if ok1 && ok2 {
+				if x.Op == token.LAND {
+					return a && b, true
+				}
+				return a || b, true
+			}
+		case token.NEQ, token.EQL:
+			l, r := Src(x.X), Src(x.Y)
+			if (l == st.rVar && r == "nil") || (r == st.rVar && l == "nil") {
+				isNil := st.scen == 0
+				if x.Op == token.EQL {
+					return isNil, true
+				}
+				return !isNil, true
+			}
+		}
+	}
+	return false, false
+}
+
+func isOOGType(e ast.Expr) bool {
+	s := Nospace(e)
+	return s == "sdk.ErrorOutOfGas" || s == "storetypes.ErrorOutOfGas" || s == "store.ErrorOutOfGas"
+}
+
+func (st *oogState) stmt(s ast.Stmt) {
+	if st.done || st.unknown {
+		return
+	}
+	switch x := s.(type) {
+	case *ast.BlockStmt:
+		for _, y := range x.List {
+			st.stmt(y)
+		}
+	case *ast.AssignStmt:
+		if len(x.Rhs) == 1 {
+			rhs := Nospace(x.Rhs[0])
+			if rhs == "recover()" && len(x.Lhs) == 1 {
+				st.rVar = Src(x.Lhs[0])
+				return
+			}
+			if ta, ok := x.Rhs[0].(*ast.TypeAssertExpr); ok && ta.Type != nil && Src(ta.X) == st.rVar && isOOGType(ta.Type) && len(x.Lhs) == 2 {
+				st.isOOG[Src(x.Lhs[1])] = true
+				return
+			}
+			if len(x.Lhs) == 1 && Nospace(x.Lhs[0]) == "*err" && rhs == "vm.ErrOutOfGas" {
+				st.setErr = true
+				return
+			}
+		}
+		st.unknown = true
+	case *ast.ExprStmt:
+		if Nospace(x.X) == "panic("+st.rVar+")" {
+			st.panics, st.done = true, true
+			return
+		}
+		st.unknown = true
+	case *ast.ReturnStmt:
+		st.done = true
+	case *ast.IfStmt:
+		if x.Init != nil {
+			st.stmt(x.Init)
+		}
+		v, ok := st.cond(x.Cond)
+		if !ok {
+			st.unknown = true
+			return
+		}
+		if v {
+			st.stmt(x.Body)
+		} else if x.Else != nil {
+			st.stmt(x.Else)
+		}
+	case *ast.TypeSwitchStmt:
+		subj := ""
+		switch a := x.Assign.(type) {
+		case *ast.ExprStmt:
+			if ta, ok := a.X.(*ast.TypeAssertExpr); ok {
+				subj = Src(ta.X)
+			}
+		case *ast.AssignStmt:
+			if len(a.Rhs) == 1 {
+				if ta, ok := a.Rhs[0].(*ast.TypeAssertExpr); ok {
+					subj = Src(ta.X)
+				}
+			}
+		}
+		if subj != st.rVar || subj == "" {
+			st.unknown = true
+			return
+		}
+		var chosen, def *ast.CaseClause
+		for _, c := range x.Body.List {
+			cc := c.(*ast.CaseClause)
+			if cc.List == nil {
+				def = cc
+				continue
+			}
+			for _, t := range cc.List {
+				if (st.scen == 1 && isOOGType(t)) || (st.scen == 0 && Src(t) == "nil") {
+					chosen = cc
+				}
+			}
+		}
+		if chosen == nil {
+			chosen = def
+		}
+		if chosen != nil {
+			for _, y := range chosen.Body {
+				st.stmt(y)
+			}
+		}
+	default:
+		st.unknown = true
+	}
+}
+
+func oogOnlySemantic(fd *ast.FuncDecl) bool {
+	if fd == nil || fd.Body == nil {
+		return false
+	}
+	var lit *ast.FuncLit
+	ast.Inspect(fd.Body, func(n ast.Node) bool {
+		if fl, ok := n.(*ast.FuncLit); ok && lit == nil {
+			lit = fl
+		}
+		return true
+	})
+	if lit == nil {
+		return false
+	}
+	for scen := 0; scen < 3; scen++ {
+		st := &oogState{isOOG: map[string]bool{}, scen: scen}
+		st.stmt(lit.Body)
+		if st.unknown || st.rVar == "" {
+			return false
+		}
+		switch scen {
+		case 0:
+			if st.setErr || st.panics {
+				return false
+			}
+		case 1:
+			if !st.setErr || st.panics {
+				return false
+			}
+		case 2:
+			if st.setErr || !st.panics {
+				return false
+			}
+		}
+	}
+	return true
 }
 
 func bankMsgSendGuards(fd *ast.FuncDecl) (denom, amount bool) {
